@@ -5,6 +5,7 @@ package main
 
 import (
 	"fmt"
+	"os"
 	"sort"
 	"strings"
 
@@ -163,6 +164,42 @@ func streamC01(r *Rand, n int, o *Out) {
 		}
 		o.EmitHist("x", h)
 	}
+	// exhaustive: EVERY string over the structural alphabet up to a length that grows with the budget (quick: 3,
+	// thorough: 4), parsed alone, after "a:" / "http:" / "file:" prefixes chosen so that every state is entered, and as a
+	// reference against one base of each kind. Systematic where the grammar generator is random: all short paths through
+	// the state machine (delimiter orders, empty components, drive letters, dot segments, brackets, escapes).
+	alphabet := []string{"a", "C", ":", "/", "\\", "?", "#", "@", ".", "%", "2", "e", "[", "]", " ", "|", "\t", "-", "é"}
+	maxLen := 3
+	if v := os.Getenv("VERIF_EXHAUSTIVE"); v != "" { // bin/check: 4 for the first seed of the thorough tier, 0 for its other seeds
+		fmt.Sscan(v, &maxLen)
+	}
+	exhaustiveBases := []string{"http://h/p/q?r#s", "file:///C:/d/e", "sc://h/p", "sc:opaque", "sc:/p/q"}
+	var gen func(prefix string, depth int)
+	cnt := 0
+	gen = func(prefix string, depth int) {
+		if depth > 0 {
+			h := &Hist{}
+			h.ParsePkg(prefix)
+			h.ParsePkg("a:" + prefix)
+			h.ParsePkg("http:" + prefix)
+			if depth <= 3 {
+				h.ParsePkg("file:" + prefix)
+				h.ParsePkg("http://h" + prefix)
+				for _, b := range exhaustiveBases {
+					h.ParseRefPkg(b, prefix)
+				}
+			}
+			o.EmitHist("e", h)
+			cnt++
+		}
+		if depth == maxLen {
+			return
+		}
+		for _, a := range alphabet {
+			gen(prefix+a, depth+1)
+		}
+	}
+	gen("", 0)
 	for i := 0; i < n; i++ {
 		rr := r.Fork()
 		h := &Hist{}
@@ -267,6 +304,49 @@ func streamC02Subsets(r *Rand, o *Out, stride int) {
 func streamC05(r *Rand, n int, o *Out) {
 	streamCorpus(o)
 	setterPairs(r, n, func(h *Hist) { o.EmitHist("q", h) }, "")
+	// exhaustive: every value over the structural alphabet up to length 2 (thorough, first seed: 3), through each of the
+	// nine setters, on one start url of each kind (each call on a fresh parse: the state overrides' short paths)
+	{
+		alphabet := []string{"a", "C", ":", "/", "\\", "?", "#", "@", ".", "%", "2", "[", "]", " ", "|", "\t", "0", "é"}
+		maxLen := 2
+		if v := os.Getenv("VERIF_EXHAUSTIVE"); v != "" {
+			fmt.Sscan(v, &maxLen)
+			if maxLen > 0 {
+				maxLen--
+			}
+		}
+		starts := []string{"http://u:p@h:8/a/b?q#f", "file:///C:/x", "sc://h/p?q#f", "sc:opaque ?q#f", "sc:/p", "http://h/"}
+		var vals []string
+		var gen func(prefix string, depth int)
+		gen = func(prefix string, depth int) {
+			vals = append(vals, prefix)
+			if depth < maxLen {
+				for _, a := range alphabet {
+					gen(prefix+a, depth+1)
+				}
+			}
+		}
+		if maxLen > 0 {
+			gen("", 0)
+		}
+		for _, st := range starts {
+			for setter := 0; setter < 9; setter++ {
+				for i := 0; i < len(vals); i += 40 {
+					h := &Hist{}
+					end := i + 40
+					if end > len(vals) {
+						end = len(vals)
+					}
+					for _, v := range vals[i:end] {
+						if k := h.ParsePkg(st); k >= 0 {
+							h.Set(k, setter, v)
+						}
+					}
+					o.EmitHist("e", h)
+				}
+			}
+		}
+	}
 	for i := 0; i < n; i++ {
 		rr := r.Fork()
 		ho := defaultHist()
